@@ -102,6 +102,16 @@ type c15Step struct {
 	// N bytes of the host's answer / read data delivered). Renter side:
 	// close-after-header, stall-close (half the body, a pause, then close).
 	Cut string `json:"cut,omitempty"`
+	// debit ops: the host's store fails the DebitAccount call
+	Fault bool `json:"fault,omitempty"`
+	// paused-funder: funding RPC A (repl-pool | repl-acc on Pool / Acc towards
+	// Amounts[0]) is stalled by the raw renter after the host's cost response;
+	// funding RPC B (fund | repl-acc | repl-pool on account / pool BAcc towards
+	// Amounts[1]) is then attempted to completion on the same contract; then A
+	// completes. For A == "fund" (single round, cannot be stalled) the two race.
+	A    string `json:"a,omitempty"`
+	B    string `json:"b,omitempty"`
+	BAcc int    `json:"b_acc,omitempty"`
 }
 
 type c15Seq struct {
@@ -205,6 +215,10 @@ type c15Result struct {
 	err  error
 	data []byte
 	bal  types.Currency
+	// paused-funder
+	bErr   error
+	bRan   bool
+	bFirst bool // B finished before A did
 }
 
 func (c *c15) token(a int, bad string) proto4.AccountToken {
@@ -421,6 +435,53 @@ func (c *c15) do(st c15Step) (res c15Result) {
 		res.err = c.raw.RoundTrip(proto4.RPCWriteSectorID, &req, &resp, data, false, nil)
 	case "balance":
 		res.bal, res.err = rhp.RPCAccountBalance(ctx, c.cl, c.acct(st.Acc[0]))
+	case "paused-funder":
+		runB := func() {
+			res.bRan = true
+			raw := c.lab.NewRaw()
+			switch st.B {
+			case "fund":
+				r := raw.Fund(c.cs, rhplab.FundCall{Contract: contract, Deposits: []proto4.AccountDeposit{{Account: c.acct(st.BAcc), Amount: cur(st.Amounts[1])}}})
+				res.bErr = r.Err
+			default:
+				target := c.acct(st.BAcc)
+				if st.B == "repl-pool" {
+					target = c.pool(st.BAcc)
+				}
+				r := raw.Replenish(c.cs, rhplab.ReplenishCall{Pools: st.B == "repl-pool", Contract: contract, Accounts: []proto4.Account{target}, Target: cur(st.Amounts[1])})
+				res.bErr = r.Err
+				if r.Err == nil && r.Stage != rhplab.StageComplete {
+					res.bErr = fmt.Errorf("incomplete")
+				}
+			}
+		}
+		switch st.A {
+		case "fund":
+			// a single-round RPC holds the lock only while its handler runs: race the two
+			done := make(chan struct{})
+			go func() { defer close(done); runB() }()
+			r := c.raw.Fund(c.cs, rhplab.FundCall{Contract: contract, Deposits: []proto4.AccountDeposit{{Account: c.acct(st.Acc[0]), Amount: cur(st.Amounts[0])}}})
+			res.err = r.Err
+			<-done
+		default:
+			var as []proto4.Account
+			for _, a := range st.Acc {
+				as = append(as, c.acct(a))
+			}
+			for _, p := range st.Pool {
+				as = append(as, c.pool(p))
+			}
+			r := c.raw.Replenish(c.cs, rhplab.ReplenishCall{Pools: st.A == "repl-pool", Contract: contract, Accounts: as, Target: cur(st.Amounts[0]),
+				Round2: func(_ types.V2FileContract, h types.Hash256) (types.Signature, bool) {
+					runB()
+					res.bFirst = true
+					return c.lab.RenterKey.SignHash(h), true
+				}})
+			res.err = r.Err
+			if r.Err == nil && r.Stage != rhplab.StageComplete {
+				res.err = fmt.Errorf("incomplete")
+			}
+		}
 	default:
 		res.err = fmt.Errorf("unknown op %q", st.Op)
 	}
@@ -478,7 +539,24 @@ func (c *c15) step(st c15Step) error {
 	seq0 := c.lab.Log.Seq()
 	c.raw.C.TakeStreams()
 	c.cl.TakeStreams()
+	var disarm func() bool
+	if st.Fault {
+		disarm = c.lab.Log.FailNext(rhplab.EvDebit)
+	}
 	res := c.do(st)
+	if disarm != nil {
+		if err := c.quiesce(); err != nil {
+			disarm()
+			return err
+		}
+		if disarm() {
+			c.r.Count("debit_store_faults", 1)
+			c.r.Distinct("debit-store-fault:" + st.Op)
+			if res.err == nil {
+				c.report("success-after-failed-debit:"+st.Op, "the RPC completed for the renter although the host's store failed the debit", nil)
+			}
+		}
+	}
 	if err := c.quiesce(); err != nil {
 		return err
 	}
@@ -534,6 +612,9 @@ func (c *c15) step(st c15Step) error {
 			}
 			if tok.HostKey != hostKey || !tok.ValidUntil.After(time.Now()) || !types.PublicKey(tok.Account).VerifyHash(tok.SigHash(), tok.Signature) {
 				c.report("debit-with-invalid-token:"+kind, "an account was debited on the strength of an invalid token", map[string]any{"token": tok})
+			}
+			if ev.Injected {
+				continue // the store failed: not paid, judged by the unpaid-RPC rules below
 			}
 			// how many balances does this debit reach into, per the model?
 			sources, left := 0, usage.RenterCost()
@@ -746,6 +827,55 @@ func (c *c15) step(st c15Step) error {
 			}
 		}
 		c.r.Count("replenishes_checked", 1)
+	}
+
+	// paused funder: credits are matched one-to-one by revisions
+	if st.Op == "paused-funder" {
+		var credited types.Currency
+		ncred := 0
+		for i := range evs {
+			if ev := &evs[i]; (ev.Kind == rhplab.EvCreditAccounts || ev.Kind == rhplab.EvCreditPools) && ev.Err == "" {
+				ncred++
+				for _, d := range ev.Deposits {
+					credited = credited.Add(d.Amount)
+				}
+			}
+		}
+		hs1, err := c.lab.State(c.contracts[ci].ID)
+		if err != nil {
+			return inconclusive("contract state: %v", err)
+		}
+		detail := map[string]any{"a_error": errText(res.err), "b_error": errText(res.bErr), "credit_calls": ncred, "credited": hs(credited),
+			"start_revision": hs0.Revision.RevisionNumber, "stored_revision": hs1.Revision.RevisionNumber}
+		moved := types.ZeroCurrency
+		if hs0.Revision.RenterOutput.Value.Cmp(hs1.Revision.RenterOutput.Value) >= 0 {
+			moved = hs0.Revision.RenterOutput.Value.Sub(hs1.Revision.RenterOutput.Value)
+		}
+		detail["moved_renter_to_host"] = hs(moved)
+		switch {
+		case credited.Cmp(moved) > 0:
+			c.report("credits-exceed-committed-transfer", fmt.Sprintf("accounts and pools were credited %v H in total but the latest stored revision moved only %v H from renter to host", hs(credited), hs(moved)), detail)
+		case !credited.Equals(moved) || !hs1.Revision.HostOutput.Value.Equals(hs0.Revision.HostOutput.Value.Add(moved)):
+			c.report("credits-vs-committed-transfer", "the stored revision's renter->host transfer differs from the credits recorded", detail)
+		default:
+			c.r.Count("paused_funder_conserved", 1)
+		}
+		if res.bRan && st.A != "fund" {
+			c.r.Count("paused_funder_rounds", 1)
+			c.r.Distinct("paused-funder:" + st.A + "/" + st.B)
+			if res.bErr == nil {
+				c.report("funder-not-refused:"+st.B+"-while-"+st.A, "a second funding RPC went through on a contract whose lock was held by a paused "+st.A, detail)
+			} else {
+				c.r.Count("paused_funder_b_refused", 1)
+			}
+			if res.err != nil {
+				c.r.Inconclusive(fmt.Sprintf("paused funder %s/%s: the paused RPC did not complete: %v", st.A, st.B, res.err))
+			}
+		} else if st.A == "fund" {
+			c.r.Count("racing_funder_rounds", 1)
+		} else {
+			c.r.Count("paused_funder_not_reached", 1)
+		}
 	}
 
 	// expectations about the step's own outcome
@@ -1121,6 +1251,17 @@ func (c *c15) runAborts() error {
 			}
 		}
 		c.r.Count("funded_count_scenarios", 1)
+		// the store failing the debit: an error, nothing served, nothing taken
+		if err := c.step(c15Step{Op: "fund", Acc: []int{a}, Amounts: []string{hs(cost.Mul64(2))}}); err != nil {
+			return err
+		}
+		for i := 0; i < 2; i++ {
+			st := op
+			st.Fault = true
+			if err := c.step(st); err != nil {
+				return err
+			}
+		}
 		// answer-phase cuts on a well funded account
 		if err := c.step(c15Step{Op: "fund", Acc: []int{a}, Amounts: []string{hs(cost.Mul64(uint64(len(c15RespCuts)) + 1))}}); err != nil {
 			return err
@@ -1241,6 +1382,37 @@ func (c *c15) runPoolOrder(steps int) error {
 	return nil
 }
 
+// runPausedFunders: a funding RPC paused by the renter after the host's cost
+// response, a second funding RPC attempted meanwhile on the same contract.
+func (c *c15) runPausedFunders(reps int) error {
+	cost := c.prices.RPCReadSectorCost(64).RenterCost()
+	for rep := 0; rep < reps; rep++ {
+		for _, a := range []string{"repl-pool", "repl-acc", "fund"} {
+			for _, b := range []string{"fund", "repl-acc", "repl-pool"} {
+				// fresh targets, so that A always has something to deposit
+				na, np := len(c.accKeys), len(c.poolKeys)
+				c.acct(na + 2)
+				c.pool(np + 2)
+				st := c15Step{Op: "paused-funder", A: a, B: b, Contract: rep, BAcc: na + 2,
+					Amounts: []string{hs(cost.Mul64(3).Add(types.NewCurrency64(uint64(rep)))), hs(cost.Mul64(5))}}
+				switch a {
+				case "repl-pool":
+					st.Pool = []int{np, np + 1}
+				default:
+					st.Acc = []int{na, na + 1}
+				}
+				if b == "repl-pool" {
+					st.BAcc = np + 2
+				}
+				if err := c.step(st); err != nil {
+					return err
+				}
+			}
+		}
+	}
+	return nil
+}
+
 func (c *c15) runRandom(n int) error {
 	// population: 4 accounts, 3 pools, funded and partly attached
 	a0, p0 := len(c.accKeys), len(c.poolKeys)
@@ -1334,6 +1506,9 @@ func runC15(r *mon.Run, replay string) {
 	r.Floor("detaches_of_non_last_pool_followed_by_paid_rpc", 25)
 	r.Floor("debits_spanning_balances", 60)
 	r.Floor("pool_order_scenarios", 8)
+	r.Floor("paused_funder_rounds", 30)
+	r.Floor("paused_funder_conserved", 40)
+	r.Floor("debit_store_faults", 8)
 	var wg sync.WaitGroup
 	workers := r.Pick(4, 10)
 	for w := 0; w < workers; w++ {
@@ -1356,6 +1531,9 @@ func runC15(r *mon.Run, replay string) {
 					if err := c.runAborts(); err != nil {
 						return err
 					}
+				}
+				if err := c.runPausedFunders(r.Pick(2, 6)); err != nil {
+					return err
 				}
 				for i := 0; i < r.Pick(3, 12); i++ {
 					if err := c.runPoolOrder(40); err != nil {
